@@ -33,6 +33,11 @@ def datetime_isostring(date, keep_microseconds=False):
     else:
         date_to_format = date.replace(microsecond=0)
 
+    # dates that have been read from a manifest (e.g. the hash dates carried over by flatten) already know their
+    # utc offset, they are converted to local time instead of getting the local offset attached to their fields
+    if date_to_format.tzinfo is not None:
+        return date_to_format.astimezone().isoformat()
+
     # use the utc offset that is in force at the given (local) date, not the one of the current time,
     # the two differ e.g. for a file that has been modified in winter and is hashed in summer
     utc_offset = date_to_format.astimezone().utcoffset()
